@@ -1,6 +1,6 @@
 (* C14 - Target files decode to exactly the targets they describe, independently. *)
-From Coq Require Import ZArith List Bool.
-From V Require Import Base.Duration Base.Str Model.Flags Model.Targets Proofs.TargetsProofs.
+From Coq Require Import ZArith List Bool Lia.
+From V Require Import Base.Duration Base.Str Base.Base64 Model.Flags Model.Json Model.Targets Model.JsonTarget Proofs.TargetsProofs Proofs.JsonProofs Proofs.JsonTargetProofs.
 Import ListNotations.
 Open Scope Z_scope.
 
@@ -18,6 +18,44 @@ Proof.
   destruct (t_method t); [congruence|]. destruct (t_url t); [congruence|]. reflexivity.
 Qed.
 Print Assumptions json_defaults_merge.
+
+(* JSON format, from the bytes.  A target written with the JSON target encoder (Model/JsonTarget.v:
+   the generated easyjson writer - method, url, then body and header only when non-empty, base64
+   body, header object of string arrays) reads back, through the JSON reader of Model/Json.v, as
+   the very same target - for every target whose texts are byte strings, whose body is bytes and
+   whose header keys are distinct (a Go map). *)
+Theorem json_target_roundtrip : forall t, jt_dom t -> jt_decode_line (jt_line t) = Some t.
+Proof. exact jt_roundtrip_lemma. Qed.
+Print Assumptions json_target_roundtrip.
+Theorem json_encoder_writes_lines : forall t, jt_dom t -> jt_encode t = jt_line t ++ [10] /\ ~ In 10 (jt_line t).
+Proof. intros t D. split; [apply jt_encode_line, (td_body t D) | apply jt_line_no10, D]. Qed.
+
+(* ... and a stream of such targets read by the JSON targeter yields exactly those targets, in
+   order, with the defaults merged as documented, and then exhaustion *)
+Theorem json_targets_stream : forall db dh ts,
+  Forall jt_dom ts -> Forall (fun t => t_method t <> [] /\ t_url t <> []) ts ->
+  json_calls db dh (S (length ts)) (jlines_of (flat_map jt_encode ts)) =
+  map (fun t => TOk (merged db dh t)) ts ++ [TNoTargets].
+Proof. exact json_targets_stream_lemma. Qed.
+Print Assumptions json_targets_stream.
+
+Example json_target_nontrivial :
+  let t := {| t_method := [80;79;83;84]; t_url := [104;116;116;112;58;47;47;97;47];
+              t_body := [104;105;10;34]; t_header := [([88;45;65], [[49]; [97;32;34;113;34]]); ([89], [])] |} in
+  jt_dom t /\ t_method t <> [] /\ t_url t <> [] /\
+  json_calls [100] [([88;45;65], [[100]])] 2 (jlines_of (jt_encode t)) =
+  [ TOk {| t_method := [80;79;83;84]; t_url := [104;116;116;112;58;47;47;97;47]; t_body := [104;105;10;34];
+           t_header := [([88;45;65], [[100]; [49]; [97;32;34;113;34]])] |}; TNoTargets ].
+Proof.
+  cbv zeta. split; [|split; [discriminate | split; [discriminate | vm_compute; reflexivity]]].
+  constructor; cbn [t_method t_url t_body t_header].
+  - repeat constructor; unfold jbyte; lia.
+  - repeat constructor; unfold jbyte; lia.
+  - reflexivity.
+  - split.
+    + repeat constructor; unfold jbyte; cbn [fst snd]; lia.
+    + repeat constructor; cbn; intros H; repeat (destruct H as [H|H]; [discriminate|]); exact H.
+Qed.
 
 (* HTTP format.  Lines are classified by what strings.TrimSpace leaves of them (so every
    indentation and spacing is covered): blank, comment ('#...'), request line ("METHOD URL"),
